@@ -121,7 +121,10 @@ def run(chk):
           (2, "h,h", "i,j", True), (1, "h,phh", "i,jka", True),
           (0, "phh,phh", "ija,klb", True), (1, "phh,h", "ija,k", True),
           (1, "h,phh", "i", True), (1, "phh,h", "ija", True),
-          (2, "h,h", "i", True)]
+          (2, "h,h", "i", True),
+          # a coupling block at second order: the lower-class projections of
+          # the precursor states with second-order ground-state terms
+          (2, "h,phh", "i,jka", True)]
     ea = [(0, "p,p", "a,b", True), (1, "p,p", "a,b", True),
           (2, "p,p", "a,b", True), (1, "p,pph", "a,ibc", True),
           (0, "pph,pph", "iab,jcd", True), (1, "p,pph", "a", True),
@@ -129,7 +132,7 @@ def run(chk):
     if not quick:
         pp += [(2, "ph,pphh", "ia,jkbc", True), (2, "pphh,ph", "ijab,kc", True),
                (1, "pphh,pphh", "ijab,klcd", False), (3, "ph,ph", "ia,jb", True)]
-        ip += [(3, "h,h", "i,j", True), (2, "h,phh", "i,jka", True),
+        ip += [(3, "h,h", "i,j", True), (2, "phh,h", "ija,k", True),
                (1, "phh,phh", "ija,klb", True), (2, "h,h", "i,j", False)]
         ea += [(3, "p,p", "a,b", True), (2, "p,pph", "a,ibc", True),
                (1, "pph,pph", "iab,jcd", True)]
